@@ -23,6 +23,10 @@ CONFIGS = [
 ]
 
 
+# name alphabet for single parameters: short, snake case, digit, keyword-like, and the spellings the parsers special-case
+NAMES1 = ["alpha", "x", "learning_rate", "name2", "type", "return_type_", "some_kwargs", "args"]
+
+
 def _alphabets(tier):
     docs = [d for d in A.DOCS if d[0] != "nodoc"]  # the domain: described parameters
     full = A.sigma_param(docs=docs)
@@ -34,8 +38,10 @@ def _space(tier):
     full, small = _alphabets(tier)
     if tier == "quick":
         yield from A.ir_space(full, small, 3, headers=A.HEADERS)
+        yield from A.ir_space(A.sigma_param(docs=A.DOCS_BASIC), [], 1, returns_1=A.RETURNS[:2], names1=NAMES1[1:])
     else:
         yield from A.ir_space(full, small, 3, headers=A.HEADERS, returns_n=A.RETURNS[:3])
+        yield from A.ir_space(full, [], 1, returns_1=A.RETURNS[:2], names1=NAMES1[1:])
         # all ordered pairs over the full alphabet with plain descriptions
         plain = A.sigma_param(docs=A.DOCS_BASIC)
         for a, b in itertools.product(plain, repeat=2):
@@ -151,6 +157,7 @@ def run(case):
         vs, outcome = run_config(ir, cfg)
         outcomes.add(outcome)
         for v in vs:
+            v["sig"]["kwargs_name"] = any(nm.endswith("kwargs") for nm in ir["params"])
             v["sig"]["word_wrap_only"] = None
             v["case"] = dict(key=case.get("key"), ir=case["ir"], cfg=cfg)
         viol.extend(vs)
